@@ -65,9 +65,15 @@ class FuncInfo:
     def is_property(self):
         return any(u(d) == "property" for d in self.node.decorator_list)
 
-    def body_nodes(self, include_nested=False):
+    def body_nodes(self, include_nested=False, helpers=True):
         """All AST nodes of the body; nested function/class bodies excluded
-        unless asked for."""
+        unless asked for.  With helpers=True (default) the bodies of helpers newly extracted from this
+        function (see new_helpers) are included."""
+        if helpers:
+            out = list(self.body_nodes(include_nested, helpers=False))
+            for h in self.new_helpers():
+                out.extend(h.body_nodes(include_nested, helpers=False))
+            return out
         out = []
         stack = list(reversed(self.node.body))
         while stack:
@@ -85,6 +91,51 @@ class FuncInfo:
 
     def calls(self, include_nested=False):
         return [n for n in self.body_nodes(include_nested) if isinstance(n, ast.Call)]
+
+    def new_helpers(self):
+        """functions of the same module that this function calls and that do not exist in the reviewed snapshot
+        (resp. in the analysed tree, when this is the snapshot): the product of an extract-method refactoring.
+        Rules that look for a construct "in F" look in F and these helpers (F as it was before the extraction)."""
+        cached = getattr(self, "_new_helpers", None)
+        if cached is not None:
+            return cached
+        out, seen, work = [], {self.qualname}, [self]
+        try:
+            from .review import other_side
+
+            om = other_side(self.module.repo).modules.get(self.module.name)
+        except Exception:
+            om = None
+        if om is not None:
+            while work:
+                f = work.pop()
+                for n in f.body_nodes(helpers=False):
+                    if not isinstance(n, ast.Call):
+                        continue
+                    name = None
+                    if isinstance(n.func, ast.Name):
+                        name = n.func.id
+                    elif isinstance(n.func, ast.Attribute) and isinstance(n.func.value, ast.Name) and (n.func.value.id in ("self", "cls") or (self.cls is not None and n.func.value.id == self.cls.name)):
+                        name = n.func.attr
+                    if name is None:
+                        continue
+                    cand = None
+                    if self.cls is not None:
+                        cand = self.cls.find_method(name)
+                        if cand is None:
+                            # name-mangled private methods: self.__x is stored as __x
+                            cand = self.cls.find_method(name)
+                    if cand is None:
+                        cand = self.module.functions.get(name)
+                    if cand is None or cand.qualname in seen or cand.module is not self.module:
+                        continue
+                    if cand.qualname in om.functions:
+                        continue
+                    seen.add(cand.qualname)
+                    out.append(cand)
+                    work.append(cand)
+        object.__setattr__(self, "_new_helpers", out)
+        return out
 
 
 @dataclass(eq=False)
